@@ -59,7 +59,7 @@ class Caches:
         rd.update(self.registry)
         PP.pretty_dispatch._clear_cache()
         PP._PREDICATE_REGISTRY[:] = self.preds
-        PP._cnamedtuple_fieldnames_by_class.clear()
+        getattr(PP, '_cnamedtuple_fieldnames_by_class', {}).clear()
 
 
 def baselines(n):
@@ -72,6 +72,45 @@ def baselines(n):
         return json.loads(p.stdout.strip().splitlines()[-1])
     with ThreadPoolExecutor(max_workers=common.NCPU) as ex:
         return list(ex.map(one, range(n)))
+
+
+def aborted_call_case(chk, cid):
+    """A pformat call that is ABORTED by an exception (a list nested deeper than the interpreter's
+    recursion limit) must not influence later calls: every level of that same object is printed
+    (depth=2) before and after the aborted call; 'before' plays the role of the baseline."""
+    import warnings
+    import prettyprinter as P
+    deep = cur = []
+    levels = [deep]
+    for _ in range(700):
+        nxt = []
+        cur.append(nxt)
+        cur = nxt
+        levels.append(cur)
+    cur.append(1)
+    texts = {}
+
+    def pr(v):
+        try:
+            with warnings.catch_warnings():
+                warnings.simplefilter('ignore')
+                return C.norm(P.pformat(v, depth=2))
+        except BaseException as e:  # noqa
+            return 'RAISED ' + type(e).__name__
+    before = [pr(v) for v in levels]
+    try:
+        with warnings.catch_warnings():
+            warnings.simplefilter('ignore')
+            P.pformat(deep)              # no depth limit: exceeds the recursion limit
+        aborted = 'returned normally'
+    except BaseException as e:  # noqa
+        aborted = 'raised ' + type(e).__name__
+    after = [pr(v) for v in levels]
+    chk.cov['aborted_call'] = {'levels': len(levels), 'aborted_with': aborted}
+    base = [{'text': texts.setdefault(t, len(texts) + 1), 'foot': []} for t in before]
+    hist = [{'v': i + 1, 'text': texts.setdefault(t, len(texts) + 1), 'proj': [], 'same': True,
+             'raw': t if t != before[i] else None} for i, t in enumerate(after)]
+    return {'id': cid, 'hist': hist, 'base': base, 'scenario': 'aborted-call'}
 
 
 def check_c19(chk, args):
@@ -114,6 +153,8 @@ def check_c19(chk, args):
         cases.append({'id': hid + 1, 'hist': ev,
                       'base': [{'text': b['tid'], 'foot': b['foot']} for b in base]})
     caches.reset()
+    cases.append(aborted_call_case(chk, len(cases) + 1))
+    hs.append([])
     # canaries
     can = []
     for c in cases[:10]:
@@ -137,6 +178,15 @@ def check_c19(chk, args):
         bad = v['DONE'][c['id']][0][2][1]
         drift = v['DONE'][c['id']][0][3][1]
         names = [C.FACTORIES[i][0] for i in h]
+        if c.get('scenario') == 'aborted-call':
+            if bad:
+                nv += 1
+                pos, clause = sorted(bad)[0]
+                chk.violation('C19.history-dependent', 'after a pformat call that was aborted by an exception (a list nested '
+                              'deeper than the recursion limit), printing level %d of that same object with depth=2 gives '
+                              '%r instead of what it gave before the aborted call' % (pos - 1, c['hist'][pos - 1]['raw']),
+                              {'scenario': 'aborted-call', 'level': pos - 1})
+            continue
         if bad:
             nv += 1
             pos, clause = sorted(bad)[0]
